@@ -161,3 +161,52 @@ def toV (k : KState) : VState :=
   { i2l := k.i2l.map fun p => (p.1, canon p.2), l2i := k.l2i.map fun p => (canon p.1, p.2), stop := k.stop }
 
 end KState
+
+/-! ### composite operations over objects (everything except the mapping-driven `_relabel` / `_remove`) -/
+
+namespace KState
+open PyKey
+
+/-- `_append(v=None)` label generation over objects: the candidates are Python ints -/
+def autoLabel (k : KState) : PyKey :=
+  if k.l2i.isEmpty || !(k.count (.int k.stop)) then .int k.stop
+  else
+    let rec least (fuel i : Nat) : Nat :=
+      match fuel with
+      | 0 => i
+      | f+1 => if k.count (.int i) then least f (i+1) else i
+    .int (least (k.stop + 1) 0)
+
+/-- `_append(v, permissive)`; `none` = ValueError -/
+def appendP (k : KState) (v : Option PyKey) (permissive : Bool) : Option KState :=
+  match v with
+  | none => some (k.append k.autoLabel)
+  | some v => if k.count v then (if permissive then some k else none) else some (k.append v)
+
+/-- `index(v)`; `none` = ValueError -/
+def index? (k : KState) (v : PyKey) : Option Nat := if k.count v then some (k.idxOf v) else none
+
+/-- `at(idx)` for `0 ≤ idx`: the stored object or the index itself -/
+def labelAt (k : KState) (i : Nat) : PyKey := (i2lGet? k.i2l (.int i)).getD (.int i)
+
+inductive KOp where
+  | append (v : Option PyKey) (permissive : Bool)
+  | pop
+  | clear
+  | relabelInts
+
+def KOp.toOp : KOp → VState.Op
+  | .append v p => .append (v.map canon) p
+  | .pop => .pop
+  | .clear => .clear
+  | .relabelInts => .relabelInts
+
+def step (k : KState) : KOp → KState × Bool
+  | .append v p => match k.appendP v p with
+    | some k' => (k', true)
+    | none => (k, false)
+  | .pop => if k.stop = 0 then (k, false) else (k.pop.1, true)
+  | .clear => ({ i2l := [], l2i := [], stop := 0 }, true)
+  | .relabelInts => ({ k with i2l := [], l2i := [] }, true)
+
+end KState
